@@ -68,7 +68,12 @@ class BaseStyle(Plugin):
             try:
                 get_template = getattr(self, 'get_{}_template'.format(entry.type))
             except AttributeError:
-                format_method = getattr(self, "format_" + entry.type)
+                try:
+                    format_method = getattr(self, "format_" + entry.type)
+                except AttributeError:
+                    raise BibliographyDataError(
+                        'entry type "{0}" of entry "{1}" is not defined by the style'.format(entry.type, entry.key)
+                    )
                 text = format_method(context)
             else:
                 text = get_template(entry).format_data(context)
